@@ -36,6 +36,7 @@ func (e *Engine) verifyFunc(blk *Block, prop string) (fv *FuncVer, err error) {
 		}
 	}()
 	c := fv.ctx
+	fv.declareGhostLocals()
 	st := &State{cells: map[cellKey]Val{}, heaps: map[string]*Term{}, globals: map[string]*Term{}, pcSet: map[string]bool{}}
 	st.nextRef = c.Fresh("nr", SInt)
 	st.assume(IGe(st.nextRef, IntLit(1)))
@@ -52,7 +53,11 @@ func (e *Engine) verifyFunc(blk *Block, prop string) (fv *FuncVer, err error) {
 		et := fvv.Type().(*types.Pointer).Elem()
 		r := fv.freshVal(st, "fv_"+fvv.Name(), fvv.Type())
 		st.assume(Not(Eq(r, IntLit(0))))
-		f.bindings = append(f.bindings, &Loc{Kind: rootHeap, Ref: r, Typ: et, ElTyp: et})
+		l := &Loc{Kind: rootHeap, Ref: r, Typ: et, ElTyp: et}
+		f.bindings = append(f.bindings, l)
+		if cv, ok := fv.load(st, l).(*Term); ok {
+			fv.entryVars[fvv.Name()] = SVal{T: cv, Typ: et}
+		}
 	}
 	f.block = fn.Blocks[0]
 	st.frames = []*Frame{f}
